@@ -17,7 +17,7 @@ H = {
     'abi': dict(name='abi', sources=['h_abi.c', 'tramp_x86_64.S', 'trng_tape.c']),
     'mt': dict(name='mt', sources=['h_mt.c'], libs=['-lpthread']),
     'ct': dict(name='ct', sources=['h_ct.c'], extra_flags=['-O1']),
-    'prng': dict(name='prng', sources=['h_prng.c']),
+    'prng': dict(name='prng', sources=['h_prng.c', 'devrandom_block.c'], libs=['-ldl']),   # the scripted getrandom() is the only system source: the random device files cannot be opened
     'hex': dict(name='hex', sources=['h_hex.cpp'], cxx=True),
     'bytearray': dict(name='bytearray', sources=['h_bytearray.cpp', core.REPO + '/src/cplusplus/ascon-byte-array.cpp', core.REPO + '/src/cplusplus/ascon-aead-cpp.cpp'], cxx=True, extra_flags=['-DASCON_NO_STL']),
     'cpp': dict(name='cpp', sources=['h_cpp.cpp', 'trng_tape.c'], cxx=True),
